@@ -93,7 +93,7 @@ package statedb
 //@   ensures result == (e.used ? 1 + len(e.tail) : 0)
 
 //@ func (*lpmEntry).upsert returns (added)
-//@   property C01 C02 C04
+//@   property C01 C02 C04 C09
 //@   requires e != nil
 //@   requires !e.used ==> len(e.tail) == 0
 //@   ensures @frame onlyFreshExcept(e)
@@ -101,7 +101,7 @@ package statedb
 //@   ensures @count (e.used ? 1 + len(e.tail) : 0) == old(e.used ? 1 + len(e.tail) : 0) + (added ? 1 : 0)
 
 //@ func (*lpmEntry).delete returns (obj, removed)
-//@   property C01 C02 C04
+//@   property C01 C02 C04 C09
 //@   requires e != nil ==> (!e.used ==> len(e.tail) == 0)
 //@   ensures @frame onlyFreshExcept(e)
 //@   ensures @inv e != nil ==> (!e.used ==> len(e.tail) == 0)
@@ -377,6 +377,7 @@ package statedb
 //@   property C03 C09 C07 C08
 //@   maypanic
 //@   flag nosafety
+//@   flag nilcheck=txn
 //@   requires txn != nil ==> 0 <= tposOf(meta) && tposOf(meta) < len(txn.tableEntries) && txn.tableEntries[tposOf(meta)] != nil && len(txn.tableEntries[tposOf(meta)].indexes) > 3
 //@   ensures @closed txn == nil ==> err == ErrTransactionClosed && !hadOld && onlyFresh()
 //@   ensures @notlocked txn != nil && !old(txn.tableEntries[tposOf(meta)].locked) ==> err != nil && !hadOld && onlyFresh()
@@ -405,6 +406,7 @@ package statedb
 //@   property C03 C09 C08 C07
 //@   maypanic
 //@   flag nosafety
+//@   flag nilcheck=txn
 //@   requires txn != nil ==> 0 <= tposOf(meta) && tposOf(meta) < len(txn.tableEntries) && txn.tableEntries[tposOf(meta)] != nil && len(txn.tableEntries[tposOf(meta)].indexes) > 3 && txn.tableEntries[tposOf(meta)].deleteTrackers != nil
 //@   atcall tableIndexTxn.insert@2 requires @graveyard-only-with-trackers txn.tableEntries[tposOf(meta)].deleteTrackers.size > 0
 //@   atcall tableIndexTxn.insert@2 requires @graveyard-keyed-by-deletion-revision obj.revision == txn.tableEntries[tposOf(meta)].revision && txn.tableEntries[tposOf(meta)].revision == old(txn.tableEntries[tposOf(meta)].revision) + 1
@@ -527,6 +529,7 @@ package statedb
 //@   maypanic
 //@   flag nosafety
 //@   requires it != nil && it.dt != nil && it.dt.table == it.table
+//@   atcall (*deleteTracker).mark@* requires @refresh-never-advances-the-watermark false
 //@   ensures @watch-same-snapshot it.watch == watchOf(croot(txn)[tposOf(it.table)].indexes[0])
 //@   ensures @updates-committed it.iter != nil && it.iter.right.iter != nil && srcOf(it.iter.right.iter.next) == croot(txn)[tposOf(it.table)].indexes[0]
 //@   ensures @deletes-committed it.iter.left.iter != nil && srcOf(it.iter.left.iter.next) == croot(txn)[tposOf(it.table)].indexes[2]
